@@ -10,6 +10,11 @@ static int SYNC_N, TWO_EVENT;
  * life of its action would hit the other one's timer */
 static const struct { uint16_t inh0, evt0, inh1, evt1; } TMR2[] = { { 3, 2, 2, 0 }, { 3, 2, 0, 3 }, { 0, 3, 0, 4 }, { 2, 4, 3, 3 }, { 0, 3, 2, 0 }, { 3, 0, 2, 2 } };
 #define N_TMR2 ((int)(sizeof TMR2 / sizeof TMR2[0]))
+/* cfgs 60..: selected configurations again with the two TPDOs being numbers 2 and 3 (1802h/1A02h, 1803h/1A03h; 1800h/1801h absent):
+ * communication/mapping index arithmetic versus the runtime slot, start stagger event + number */
+static const int BASE2[] = { 4, 13, 22, 31, 40, 49, 54, 55, 57 };
+#define N_BASE2 ((int)(sizeof BASE2 / sizeof BASE2[0]))
+static int TB;
 
 enum { E_TRIG0, E_TRIGOBJ, E_WR_CHG, E_WR_SAME, E_WR_P16, E_SYNC, E_TICK, E_START, E_PREOP, E_STOP, E_RESET, E_INVAL, E_REVAL, E_TYPE254, E_TYPE255, E_INH0, E_INH2, E_INH3, E_EVT0, E_EVT3, E_EVT4, E_REMAP1, E_REMAP3, E_WR_A16, E_N };
 static const char *const EN[] = { "COTPdoTrigPdo(0)", "COTPdoTrigObj(async object)", "write async object (changed)", "write async object (same value)", "write second mapped object", "SYNC", "tick", "NMT start", "NMT pre-op", "NMT stop",
@@ -17,7 +22,8 @@ static const char *const EN[] = { "COTPdoTrigPdo(0)", "COTPdoTrigObj(async objec
 
 static const char *cfg_name(int c)
 {
-    static char b[64]; static const int SN[] = { 1, 2, 3, 240 };
+    static char b[100]; static const int SN[] = { 1, 2, 3, 240 };
+    if (c >= 54 + N_TMR2) { static char b2[128]; char t[100]; snprintf(t, sizeof t, "%s", cfg_name(BASE2[c - 54 - N_TMR2])); snprintf(b2, sizeof b2, "TPDO numbers 2,3: %s", t); return b2; }
     if (c >= 54) snprintf(b, sizeof b, "TPDO0 inhibit %d event %d; TPDO1 inhibit %d event %d; both event-driven; OPERATIONAL", TMR2[c - 54].inh0, TMR2[c - 54].evt0, TMR2[c - 54].inh1, TMR2[c - 54].evt1);
     else if (c >= 36) snprintf(b, sizeof b, "TPDO0 type %d inhibit %d event %d; TPDO1 event-driven; OPERATIONAL", 254 + (c / 9) % 2, (int[]){ 0, 2, 3 }[(c / 3) % 3], (int[]){ 0, 3, 4 }[c % 3]);
     else snprintf(b, sizeof b, "TPDO0 type %d inhibit %d event %d; TPDO1 sync type %d%s", 254 + (c / 9) % 2, (int[]){ 0, 2, 3 }[(c / 3) % 3], (int[]){ 0, 3, 4 }[c % 3], SN[c % 4], c >= 18 ? " started OPERATIONAL" : "");
@@ -27,26 +33,28 @@ static const char *cfg_name(int c)
 static int build(int cfg)
 {
     static const int SN[] = { 1, 2, 3, 240 }; static const uint16_t INH[] = { 0, 2, 3 }, EVT[] = { 0, 3, 4 };
+    TB = 0;
+    if (cfg >= 54 + N_TMR2) { TB = 2; cfg = BASE2[cfg - 54 - N_TMR2]; }
     int c = cfg % 18;
     nc_defaults();
     NC.sync = 1; NC.sync_id = 0x80; NC.sync_cycle = 0;
-    NC.n_tpdo = 2;
-    NC.tpdo[0].present = 1; NC.tpdo[0].cobid = 0x40000181u; NC.tpdo[0].type = (uint8_t)(254 + (c / 9) % 2); NC.tpdo[0].inhibit = (uint16_t)(INH[(c / 3) % 3] * 10); NC.tpdo[0].event = EVT[c % 3];
-    NC.tpdo[0].nmap = 2; NC.tpdo[0].map[0] = NC_MAP(0x2100, 0, 8); NC.tpdo[0].map[1] = NC_MAP(0x2111, 0, 16);
+    NC.n_tpdo = TB + 2;
+    NC.tpdo[TB].present = 1; NC.tpdo[TB].cobid = 0x40000181u; NC.tpdo[TB].type = (uint8_t)(254 + (c / 9) % 2); NC.tpdo[TB].inhibit = (uint16_t)(INH[(c / 3) % 3] * 10); NC.tpdo[TB].event = EVT[c % 3];
+    NC.tpdo[TB].nmap = 2; NC.tpdo[TB].map[0] = NC_MAP(0x2100, 0, 8); NC.tpdo[TB].map[1] = NC_MAP(0x2111, 0, 16);
     SYNC_N = SN[c % 4]; TWO_EVENT = cfg >= 36;
-    NC.tpdo[1].present = 1; NC.tpdo[1].cobid = 0x40000281u; NC.tpdo[1].type = (uint8_t)(TWO_EVENT ? 254 : SYNC_N); NC.tpdo[1].nmap = 1; NC.tpdo[1].map[0] = TWO_EVENT ? NC_MAP(0x2101, 0, 16) : NC_MAP(0x2110, 0, 8);
+    NC.tpdo[TB + 1].present = 1; NC.tpdo[TB + 1].cobid = 0x40000281u; NC.tpdo[TB + 1].type = (uint8_t)(TWO_EVENT ? 254 : SYNC_N); NC.tpdo[TB + 1].nmap = 1; NC.tpdo[TB + 1].map[0] = TWO_EVENT ? NC_MAP(0x2101, 0, 16) : NC_MAP(0x2110, 0, 8);
     NC.operational = cfg >= 18;
     if (cfg >= 54) {
-        NC.tpdo[0].type = 254; NC.tpdo[0].inhibit = (uint16_t)(TMR2[cfg - 54].inh0 * 10); NC.tpdo[0].event = TMR2[cfg - 54].evt0;
-        NC.tpdo[1].inhibit = (uint16_t)(TMR2[cfg - 54].inh1 * 10); NC.tpdo[1].event = TMR2[cfg - 54].evt1;
+        NC.tpdo[TB].type = 254; NC.tpdo[TB].inhibit = (uint16_t)(TMR2[cfg - 54].inh0 * 10); NC.tpdo[TB].event = TMR2[cfg - 54].evt0;
+        NC.tpdo[TB + 1].inhibit = (uint16_t)(TMR2[cfg - 54].inh1 * 10); NC.tpdo[TB + 1].event = TMR2[cfg - 54].evt1;
     }
     nc_build();
     (void)CONodeGetErr(&Node);
     memset(&M, 0, sizeof M);
-    M.t[0].valid = 1; M.t[0].type = NC.tpdo[0].type; M.t[0].inh_cfg = INH[(c / 3) % 3]; M.t[0].evt_cfg = EVT[c % 3];
+    M.t[0].valid = 1; M.t[0].type = NC.tpdo[TB].type; M.t[0].inh_cfg = INH[(c / 3) % 3]; M.t[0].evt_cfg = EVT[c % 3];
     M.t[1].valid = 1; M.t[1].type = (uint8_t)(TWO_EVENT ? 254 : SYNC_N); M.map0 = 2;
     if (cfg >= 54) { M.t[0].type = 254; M.t[0].inh_cfg = TMR2[cfg - 54].inh0; M.t[0].evt_cfg = TMR2[cfg - 54].evt0; M.t[1].inh_cfg = TMR2[cfg - 54].inh1; M.t[1].evt_cfg = TMR2[cfg - 54].evt1; }
-    if (NC.operational) { M.op = 1; for (int i = 0; i < 2; i++) { MT *t = &M.t[i]; t->active = 1; t->inh = t->inh_cfg; t->evt = t->type >= 254 ? t->evt_cfg : 0; t->ev_rem = (uint16_t)(t->evt ? t->evt + i : 0); } }
+    if (NC.operational) { M.op = 1; for (int i = 0; i < 2; i++) { MT *t = &M.t[i]; t->active = 1; t->inh = t->inh_cfg; t->evt = t->type >= 254 ? t->evt_cfg : 0; t->ev_rem = (uint16_t)(t->evt ? t->evt + TB + i : 0); } }
     W_REG(M);
     return E_N;
 }
@@ -70,7 +78,7 @@ static void activate(int i)
 {
     MT *t = &M.t[i]; deactivate(i);
     if (!t->valid || !M.op) return;
-    t->active = 1; t->inh = t->inh_cfg; t->evt = t->type >= 254 ? t->evt_cfg : 0; t->ev_rem = (uint16_t)(t->evt ? t->evt + i : 0);
+    t->active = 1; t->inh = t->inh_cfg; t->evt = t->type >= 254 ? t->evt_cfg : 0; t->ev_rem = (uint16_t)(t->evt ? t->evt + TB + i : 0);
 }
 
 static int step(int e)
@@ -79,7 +87,7 @@ static int step(int e)
     X.n = 0;
     if (e >= E_INVAL && !(M.op || 1)) return MC_SKIP;
     switch (e) {
-    case E_TRIG0: trigger(0); COTPdoTrigPdo(Node.TPdo, 0); break;
+    case E_TRIG0: trigger(0); COTPdoTrigPdo(Node.TPdo, (uint16_t)TB); break;
     case E_TRIGOBJ: { CO_OBJ *o = CODictFind(&Node.Dict, CO_DEV(0x2100, 0)); trigger(0); COTPdoTrigObj(Node.TPdo, o); break; }
     case E_WR_CHG: { uint8_t nv = (uint8_t)(A8 == 0x11 ? 0x12 : 0x11);
         /* the frame carries the new value */
@@ -94,12 +102,12 @@ static int step(int e)
         /* the CiA 301 re-mapping procedure in one go: invalidate, count 0, entries, count, validate */
         int n = e == E_REMAP1 ? 1 : 3; uint32_t r = 0;
         if (!TWO_EVENT || CONmtGetMode(&Node.Nmt) == CO_STOP) return MC_SKIP;
-        r |= nc_sdo_write(0x1800, 1, 0xC0000181u, 4); r |= nc_sdo_write(0x1A00, 0, 0, 1);
-        r |= nc_sdo_write(0x1A00, 1, NC_MAP(0x2100, 0, 8), 4);
-        if (n == 3) { r |= nc_sdo_write(0x1A00, 2, NC_MAP(0x2111, 0, 16), 4); r |= nc_sdo_write(0x1A00, 3, NC_MAP(0x2113, 1, 8), 4); }
-        r |= nc_sdo_write(0x1A00, 0, (uint32_t)n, 1);
+        r |= nc_sdo_write((uint16_t)(0x1800 + TB), 1, 0xC0000181u, 4); r |= nc_sdo_write((uint16_t)(0x1A00 + TB), 0, 0, 1);
+        r |= nc_sdo_write((uint16_t)(0x1A00 + TB), 1, NC_MAP(0x2100, 0, 8), 4);
+        if (n == 3) { r |= nc_sdo_write((uint16_t)(0x1A00 + TB), 2, NC_MAP(0x2111, 0, 16), 4); r |= nc_sdo_write((uint16_t)(0x1A00 + TB), 3, NC_MAP(0x2113, 1, 8), 4); }
+        r |= nc_sdo_write((uint16_t)(0x1A00 + TB), 0, (uint32_t)n, 1);
         M.t[0].valid = 0; deactivate(0); M.map0 = (uint8_t)n;
-        r |= nc_sdo_write(0x1800, 1, 0x40000181u, 4);
+        r |= nc_sdo_write((uint16_t)(0x1800 + TB), 1, 0x40000181u, 4);
         M.t[0].valid = 1; activate(0);
         if (r != 0) mc_fail("tpdo-param-write", "re-mapping procedure refused (%08X)", r);
         break; }
@@ -123,12 +131,12 @@ static int step(int e)
         /* SDO parameter writes: not possible in STOPPED; detect by asking the node */
         if (CONmtGetMode(&Node.Nmt) == CO_STOP) return MC_SKIP;
         MT *t = &M.t[0];
-        if (e == E_INVAL) { r = nc_sdo_write(0x1800, 1, 0xC0000181u, 4); if (r == 0) { t->valid = 0; deactivate(0); } }
-        else if (e == E_REVAL) { int was = t->valid; r = nc_sdo_write(0x1800, 1, 0x40000181u, 4); if (r == 0 && !was) { t->valid = 1; activate(0); } }
-        else if (e == E_TYPE254 || e == E_TYPE255) { r = nc_sdo_write(0x1800, 2, e == E_TYPE254 ? 254 : 255, 1); if (r == 0) t->type = (uint8_t)(e == E_TYPE254 ? 254 : 255); }
-        else if (e >= E_INH0 && e <= E_INH3) { uint16_t v = (uint16_t)(e == E_INH0 ? 0 : e == E_INH2 ? 2 : 3); r = nc_sdo_write(0x1800, 3, v * 10u, 2); if (r == 0) t->inh_cfg = v; }
+        if (e == E_INVAL) { r = nc_sdo_write((uint16_t)(0x1800 + TB), 1, 0xC0000181u, 4); if (r == 0) { t->valid = 0; deactivate(0); } }
+        else if (e == E_REVAL) { int was = t->valid; r = nc_sdo_write((uint16_t)(0x1800 + TB), 1, 0x40000181u, 4); if (r == 0 && !was) { t->valid = 1; activate(0); } }
+        else if (e == E_TYPE254 || e == E_TYPE255) { r = nc_sdo_write((uint16_t)(0x1800 + TB), 2, e == E_TYPE254 ? 254 : 255, 1); if (r == 0) t->type = (uint8_t)(e == E_TYPE254 ? 254 : 255); }
+        else if (e >= E_INH0 && e <= E_INH3) { uint16_t v = (uint16_t)(e == E_INH0 ? 0 : e == E_INH2 ? 2 : 3); r = nc_sdo_write((uint16_t)(0x1800 + TB), 3, v * 10u, 2); if (r == 0) t->inh_cfg = v; }
         else { uint16_t v = (uint16_t)(e == E_EVT0 ? 0 : e == E_EVT3 ? 3 : 4);
-            r = nc_sdo_write(0x1800, 5, v, 2);
+            r = nc_sdo_write((uint16_t)(0x1800 + TB), 5, v, 2);
             if (r == 0) { t->evt_cfg = v;
                 if (t->active) {      /* the event time is re-timed from the write; a running inhibit time is ended by it and a waiting transmission is sent */
                     t->evt = v; t->ev_rem = v; t->inh_rem = 0;
@@ -167,5 +175,5 @@ static int step(int e)
     return MC_OK;
 }
 
-static const mc_harness H = { "C12", "c12", 54 + N_TMR2, cfg_name, build, ev_name, step, 8, 7 };
+static const mc_harness H = { "C12", "c12", 54 + N_TMR2 + N_BASE2, cfg_name, build, ev_name, step, 8, 7 };
 int main(int argc, char **argv) { return mc_main(argc, argv, &H); }
